@@ -39,7 +39,7 @@ def run(job):
         os.makedirs(os.path.join(vdir, 'evidence'))
         for f in ('known_findings.jsonl', 'properties.jsonl'):
             shutil.copy('/verif/' + f, vdir)
-        q = subprocess.run(['/verif/bin/fxcheck', '-prop', 'all', '-verif', vdir],
+        q = subprocess.run([os.environ.get('FXBIN', '/verif/bin/fxcheck'), '-prop', 'all', '-verif', vdir],
                            env=dict(os.environ, FXCHECK_OVERLAY='%s=%s' % (path, outp)), capture_output=True, text=True)
         out = q.stdout + q.stderr
         if 'LOAD-ERROR' in out:
